@@ -88,25 +88,34 @@ FASTA_TRUSTED = LIST_TRUSTED + [
     "revcomp_bytes_io turns residues [first, first+n) into their reverse complement (TRUSTED model; the table is decided by lemma c14_complement_table)",
 ]
 
+INDEX_TRUSTED = [
+    "ghost model of a binary file read line by line (specs/fasta_index.py): a list of line values with first byte, second-to-last byte, length, length without the terminator (rstrip(b'\\r\\n')), header name (line[1:].split()[0].decode()), and ghost byte offset / residue count defined by the recurrences in the precondition; iterating the file yields the lines in order and tell() is the offset after the line handed out (ext.Path.open, ext.LineFile.tell)",
+    "re.finditer(rb'[ACGTacgt]+', bytes) is modelled as the list of maximal runs of the ghost predicate acgt over the residues of the buffer (engine model acgt_runs); any other pattern is out of the subset",
+    "ghost functions rec_header / rec_number are given by their characteristic properties (they exist for every file that starts with a header line)",
+    "closures are executed in their defining scope (nonlocal rebinding as in PEP 3104); `with file.open('rb') as fh` is modelled as the binding only",
+    "per-record statement: each closing of a record is proved to add exactly the entry and scaffold of that record and to leave earlier ones in place; the statement over all records follows by the loop semantics (one closing per header line after the first and one after the last line), not by a cumulative invariant",
+    "induction over the rows of a record (meta-step of lemma c04_rows_tile_by_running_total)",
+]
+
 PROPS["C03"] = {
     "level": "other",
     "technique": "deductive verification of sequence_bytes / fwd_chunks / rev_chunks / get_gap_iter / get_sequence_iter / write_scaffold / write_assembly against contracts over a ghost FASTA layout and output-column model; bounded byte-level comparison incl. the pretext-to-asm CLI",
-    "level_text": "Proved for all layouts, intervals, buffer sizes and line lengths: sequence_bytes reads exactly residues start..end (every read is checked to sit on the next expected residue, inside one line and inside the record); the chunk iterators deliver the row in pieces of 1..buffer_size residues that abut and cover it (last-first and reverse-complemented for minus rows; gaps as filler runs summing to the gap length); write_scaffold consumes every chunk completely and in order, never writes an empty or over-long line, ends with a complete line and writes exactly Scaffold.length residues; write_assembly writes one such record per scaffold in order. Not proved (bounded): the byte-for-byte content equality through real files, record-name uniqueness (inherited from C10), and the end-to-end CLI.",
+    "level_text": "Proved for all layouts, intervals, buffer sizes and line lengths: sequence_bytes reads exactly residues start..end (every read is checked to sit on the next expected residue, inside one line and inside the record); the chunk iterators deliver the row in pieces of 1..buffer_size residues that abut and cover it (last-first and reverse-complemented for minus rows; gaps as filler runs summing to the gap length); write_scaffold consumes every chunk completely and in order, never writes an empty or over-long line, ends with a complete line and writes exactly Scaffold.length residues; write_assembly writes one such record per scaffold in order. The index the streamer reads through is the one index_fasta_file is proved to build (C04 contract: quintuple and tiling per record). Not proved (bounded): the byte-for-byte content equality through real files, record-name uniqueness (inherited from C10), and the end-to-end CLI.",
     "level_note": "The link from the abstract bytes model to real file bytes (io semantics, bytes.translate, slicing) is trusted; content equality with real files is checked by the bounded tier. pretext_to_asm.write_assembly (same object passed to both writers) is bounded.",
     "lemmas": ["c03_chunks_cover_the_row"],
     "bounded": [("bounded.c03", {})],
-    "trusted": FASTA_TRUSTED,
+    "trusted": FASTA_TRUSTED + INDEX_TRUSTED,
     "assumptions": ["rows lie within the indexed sequences (precondition of write_scaffold)", "text encoding of the record header is opaque"],
     "explanation": "streaming core proved over a ghost file model; real bytes and the CLI bounded",
 }
 PROPS["C13"] = {
     "level": "other",
     "technique": "allocation-size obligations inside the contracts of the streaming functions (every chunk and every read is at most buffer_size), buffer-size-free postconditions; bounded byte identity over buffer sizes and tracemalloc peaks",
-    "level_text": "Proved: every BytesIO produced by fwd_chunks, rev_chunks and get_gap_iter holds between 1 (0 for the final filler chunk) and buffer_size bytes, each sequence_bytes request spans at most buffer_size residues and each of its reads at most one line, write_scaffold holds one chunk and one piece of at most line_length at a time; the postconditions of all streaming functions do not depend on buffer_size (the delivered residues are start..end for every buffer_size >= 1), which is the independence clause for streaming. Not decidable by contracts and therefore bounded: real peak memory of CPython (tracemalloc run-time contract) and the indexing side (index_fasta_file), compared across buffer sizes.",
-    "level_note": "index_fasta_file's buffer independence is covered by the bounded tier only in this round. Real memory behaviour of the interpreter is outside what a contract on source can state.",
+    "level_text": "Proved: every BytesIO produced by fwd_chunks, rev_chunks and get_gap_iter holds between 1 (0 for the final filler chunk) and buffer_size bytes, each sequence_bytes request spans at most buffer_size residues and each of its reads at most one line, write_scaffold holds one chunk and one piece of at most line_length at a time; the postconditions of all streaming functions do not depend on buffer_size (the delivered residues are start..end for every buffer_size >= 1), which is the independence clause for streaming. Indexing side: the contract of index_fasta_file does not mention buffer_size in any postcondition (entries and rows are the same for every buffer_size >= 1, run merging across flushes is part of the loop invariant) and its loop invariant bounds the sequence buffer by buffer_size residues between lines (plus the line being added). Not decidable by contracts and therefore bounded: real peak memory of CPython (tracemalloc run-time contract), compared across buffer sizes.",
+    "level_note": "Real memory behaviour of the interpreter is outside what a contract on source can state.",
     "lemmas": ["c03_chunks_cover_the_row"],
     "bounded": [("bounded.c13", {})],
-    "trusted": FASTA_TRUSTED,
+    "trusted": FASTA_TRUSTED + INDEX_TRUSTED,
     "assumptions": ["memory is measured as the size of the bytes objects the functions construct (ghost length), not the allocator's footprint"],
     "explanation": "size bounds proved in the contracts; peak memory and indexing bounded",
 }
@@ -259,16 +268,17 @@ PROPS["C17"] = {
     "explanation": "hash-seed independence proved for the only set-ordered loop + frame; environment factors bounded",
 }
 
+
 PROPS["C04"] = {
-    "level": "other",
-    "technique": "deductive verification of random access through the index (sequence_bytes over the ghost faidx layout), of the index record, layout and stream-back lemmas over the contracts; the indexing pass itself (index_fasta_file) by a bounded exhaustive oracle over small well-formed files x all buffer sizes",
-    "level_text": "Proved: for every faidx entry with residues_per_line >= 1 and a line terminator of at least one byte and every interval 1 <= start <= end <= length, sequence_bytes returns exactly residues start..end in order - each read starts on the next expected residue at byte offset + (g // rpl) * mll + g % rpl, stays within one line (never a terminator byte) and within the record - for all line widths, CRLF or LF, intervals crossing any number of lines; FastaInfo stores the four numbers as given; get_fasta_seq is sequence_bytes(info, 1, length); lemmas: the layout function is the faidx layout (consecutive residues contiguous within a line, terminator skipped between lines), and a derived assembly that tiles the record (fragment rows carrying their own record coordinates, gaps of the right length) streams back position by position. NOT proved, bounded: index_fasta_file - that the quintuple and the tiling it produces describe the file (incl. files without a final newline, the defect repaired in 36b04bb), run merging across buffer flushes, duplicate names / empty files rejected.",
-    "level_note": "index_fasta_file (two closures sharing nonlocal state over a line iterator, a BytesIO buffer and re.finditer) is not under contract in this round; its behaviour is decided by the bounded tier only (all files with up to 3 records of up to 7-10 residues x 24 layouts x every buffer size, against an independent faidx/tiling oracle).",
-    "lemmas": ["c04_random_access_layout", "c04_derived_assembly_streams_back"],
+    "level": "proof",
+    "technique": "deductive verification of index_fasta_file from the real AST (three loops, two closures sharing nonlocal state) against a ghost model of the file and of the ACGT runs; of random access through the index (sequence_bytes over the faidx layout); lemmas over the contracts (layout, running totals by induction, stream-back); bounded exhaustive oracle over small files x all buffer sizes as cross-check and replay source",
+    "level_text": "Proved for every file that starts with a header line, whose header lines carry a name and whose records have a non-empty first sequence line (any number of records and lines, LF or CRLF, final newline or not, any buffer size >= 1): whenever index_fasta_file closes a record - at the next header line or after the last line - it adds exactly one index entry, under a name that was not present (so a duplicate name can only end in the ValueError), holding (residues on the record's sequence lines, byte offset after the header line, residues on the first sequence line, that plus the terminator width read off the header line), and exactly one scaffold of that name whose rows describe the record completely and in order: fragment rows name:start-end (1-based, forward, no tags) exactly over the maximal ACGT runs, gap rows (type scaffold) exactly over the stretches between them, alternating, run merging across buffer flushes included (invariant over the open region); earlier entries and scaffolds are left alone; a file without records never returns normally; no TypeError / IndexError / AttributeError / KeyError can occur; the sequence buffer never holds more than buffer_size residues between lines. Lemma (induction): those row coordinates are the running totals of the row lengths and the total is the record length. Random access: for every faidx entry with residues_per_line >= 1 and a terminator of at least one byte and every 1 <= start <= end <= length, sequence_bytes returns exactly residues start..end (each read on the next expected residue, inside one line, inside the record); FastaInfo stores the four numbers as given; lemmas: the layout function is the faidx layout, and a derived assembly that tiles the record streams back position by position.",
+    "level_note": "Trusted: the ghost models of file iteration, bytes lines, io.BytesIO and re.finditer (listed under trusted_base) - their agreement with CPython is what the bounded tier checks on every run (all files with up to 3 records of up to 7-10 residues x 24 layouts x every buffer size against an independent faidx / tiling oracle); uniform line width within a record is needed only to read 'bytes per full line' as the length of every full line (the number stored is first-line residues + terminator width, as proved).",
+    "lemmas": ["c04_random_access_layout", "c04_rows_tile_by_running_total", "c04_derived_assembly_streams_back"],
     "bounded": [("bounded.c04", {})],
-    "trusted": FASTA_TRUSTED,
-    "assumptions": ["well-formed FASTA as in the statement"],
-    "explanation": "random access proved for all layouts; the indexing pass bounded",
+    "trusted": FASTA_TRUSTED + INDEX_TRUSTED,
+    "assumptions": ["well-formed FASTA as in the statement: starts with a header line, header lines have a name, the first sequence line of a record is not empty"],
+    "explanation": "indexing pass and random access proved over ghost models of the file; bounded exhaustive cross-check",
 }
 
 NOT_APPLICABLE = {}
